@@ -37,6 +37,7 @@ class State(object):
     def __init__(self, rules):
         self.rules = rules
         self.objs = {}
+        self.cascade_revisit = False
 
     def copy(self):
         s = State(self.rules)
@@ -223,7 +224,9 @@ class State(object):
         if oid not in self.objs: return
         o = self.objs[oid]
         if _stack is None: _stack = set()
-        if oid in _stack: return
+        if oid in _stack:
+            self.cascade_revisit = True     # the cascade came back to an object that is being deleted (cycle)
+            return
         _stack.add(oid)
         er = self.er(o)
         for n, a in er.attrs.items():
